@@ -1,12 +1,12 @@
 /-
-The checkpoint lookups the CODE defines (Gen/Trans.lean, regenerated from blockmanager.go on every
+The checkpoint lookups the CODE defines (Gen/TransBM.lean, regenerated from blockmanager.go on every
 run) are the lookups of the hand model (`BM.findNextCp`, `BM.findPrevCp`) on every ascending
 checkpoint list with non-negative heights.
 -/
-import Neutrino.Gen.Trans
+import Neutrino.Gen.TransBM
 import Neutrino.Model.BlockMgr
 namespace Neutrino.BM
-open Neutrino.Gen.Trans Neutrino.GoInt
+open Neutrino.Gen.TransBM Neutrino.GoInt
 
 /-- a translated `chaincfg.Checkpoint` as the model's checkpoint (hashes are atoms) -/
 def absCp (c : T_chaincfg_Checkpoint) : Cp := ⟨c.Height.toNat, c.Hash⟩
